@@ -608,6 +608,25 @@ func (env *specEnv) evalCall(t *ast.CallExpr) Value {
 	eng := env.ex.eng
 	if id, ok := t.Fun.(*ast.Ident); ok {
 		switch id.Name {
+		case "atlock":
+			// atlock(e): e evaluated right after the most recent exclusive acquisition of a guarding mutex
+			if env.st == nil || env.st.atLock == nil {
+				// no exclusive acquisition on this path: the value is unconstrained
+				v := env.eval(t.Args[0])
+				if v.T == nil {
+					env.fail("atlock(): no exclusive acquisition of a guarding mutex on this path")
+				}
+				return freshValue("atlock.none", v.T)
+			}
+			{
+				n := *env
+				n.st = env.st.atLock
+				n.preferCells = false
+				if n.cur == nil {
+					n.cur = env.st
+				}
+				return n.eval(t.Args[0])
+			}
 		case "old":
 			n := *env
 			n.st = env.old
